@@ -1,4 +1,6 @@
 """Contracts for src/dhkex/ecdh_nistp.rs (macro nistp_dhkex!: P-256, P-384, P-521)."""
+from contracts.c_lib import from_bytes_clauses
+from contracts.c_dhkex import SK_TO_PK, DERIVE
 
 M = [r'macro_rules! nistp_dhkex\b', r'pub\(crate\) mod \$curve\b']
 C = 'curve_crate::Nist$CURVE'
@@ -14,24 +16,14 @@ def apply(F):
         F.contract(S, r'fn write_exact\b', attrs=['#[verifier::external_body]'], discharged_by='TRUSTED (dependency encoder; length discipline by kani:write_exact_len_*)')
         F.wrap(M, S[-1])
     D = M + [r'impl Deserializable for PublicKey\b']
-    F.contract(D, r'fn from_bytes\b', ret='r', clauses='''
-        ensures
-            /*@C09 C12 C13*/ encoded@.len() != tnum::<$pubkey_size>() ==> r == Err::<Self, HpkeError>(HpkeError::IncorrectInputLength(tnum::<$pubkey_size>() as usize, encoded@.len() as usize)),
-            /*@C09 C13*/ encoded@.len() == tnum::<$pubkey_size>() ==> (r is Ok <==> sec1_valid::<CurveTy>(encoded@)),
-            /*@C09*/ encoded@.len() == tnum::<$pubkey_size>() && r is Err ==> r == Err::<Self, HpkeError>(HpkeError::ValidationError),
-            /*@C09 C12*/ r is Ok ==> r.unwrap().ser() == encoded@,
-''')
+    F.insert_in(M, D[-1], '                // ghost: RFC 9180 §7.1.4 validation of public keys\n                open spec fn de_valid(b: Bytes) -> bool { sec1_valid::<CurveTy>(b) }')
+    F.contract(D, r'fn from_bytes\b', ret='r', clauses=from_bytes_clauses('tnum::<Self::OutputSize>()') + ',\n')
     F.wrap(M, D[-1])
     D = M + [r'impl Deserializable for PrivateKey\b']
     # SecretKey::from_bytes takes &FieldBytes<C> (a projection of elliptic_curve::Curve, which cannot be
     # declared to Verus): contract assumed here, glue + range check discharged by Kani per curve
-    F.contract(D, r'fn from_bytes\b', ret='r', attrs=['#[verifier::external_body]'], discharged_by='kani:nist_sk_from_bytes_*', clauses='''
-        ensures
-            /*@C09 C12 C13*/ encoded@.len() != tnum::<$privkey_size>() ==> r == Err::<Self, HpkeError>(HpkeError::IncorrectInputLength(tnum::<$privkey_size>() as usize, encoded@.len() as usize)),
-            /*@C09 C13*/ encoded@.len() == tnum::<$privkey_size>() ==> (r is Ok <==> scalar_ok::<CurveTy>(encoded@)),
-            /*@C09*/ encoded@.len() == tnum::<$privkey_size>() && r is Err ==> r == Err::<Self, HpkeError>(HpkeError::ValidationError),
-            /*@C09 C12*/ r is Ok ==> r.unwrap().ser() == encoded@,
-''')
+    F.contract(D, r'fn from_bytes\b', ret='r', attrs=['#[verifier::external_body]'], discharged_by='kani:nist_sk_from_bytes_*')
+    F.insert_in(M, D[-1], '                // ghost: RFC 9180 §7.1.2: private keys are scalars in [1, n-1]\n                open spec fn de_valid(b: Bytes) -> bool { scalar_ok::<CurveTy>(b) }')
     F.wrap(M, D[-1])
     X = M + [r'impl DhKeyExchange for \$dh_name\b']
     F.insert_in(M, X[-1], '''
@@ -46,7 +38,7 @@ def apply(F):
                     (sk, ec_base::<CurveTy>(sk))
                 }
 ''')
-    F.contract(X, r'fn sk_to_pk\b', ret='r')
+    F.contract(X, r'fn sk_to_pk\b', ret='r', clauses=SK_TO_PK + ',\n')
     F.contract(X, r'fn dh\b', ret='r', attrs=['#[verifier::external_body]'], discharged_by='TRUSTED (one-line delegation to elliptic_curve::ecdh::diffie_hellman; its impl-Borrow signature is outside Verus)')
     F.contract(X, r'fn derive_keypair<Kdf: KdfTrait>', ret='r', attrs=['#[verifier::external_body]'], discharged_by='OPEN')
     F.wrap(M, r'pub struct \$dh_name\b')
